@@ -209,6 +209,24 @@ def run(env, rep):
                 lst.sort(key=lambda x: b.rpo_index[x[0]])
                 if any(p for _, p in lst):
                     seqs.append(("push:%s" % stable(("ref", tgt)), [p for _, p in lst]))
+            # (ii') a produced packet put in *front* of a vector that other results were appended to before: it was serialized after
+            # them and is returned before them
+            for bi, t in b.calls():
+                if callee_name(t) == "alloc::vec::Vec::insert":
+                    S, args = args_at(ctx, b.key, bi)
+                    if S is None or len(args) < 3 or not producers_in(args[2], prods):
+                        continue
+                    tgt = it.target(args[0])
+                    earlier = [bj for bj, t2 in b.calls() if bj != bi and callee_name(t2) in ("alloc::vec::Vec::push", "alloc::vec::Vec::append", "alloc::vec::Vec::extend_from_slice",
+                               "<alloc::vec::Vec<T, A> as core::iter::traits::collect::Extend<T>>::extend") and b.dominates(bj, bi) is False and bj in b.rpo_index and b.rpo_index[bj] < b.rpo_index[bi]]
+                    idx = const_val(args[1])
+                    prod_block = max((prods[R][0] for R in producers_in(args[2], prods)), key=lambda x: b.rpo_index.get(x, 0))
+                    appended_before_production = [bj for bj, t2 in b.calls() if callee_name(t2) in ("alloc::vec::Vec::push", "alloc::vec::Vec::append",
+                                                  "<alloc::vec::Vec<T, A> as core::iter::traits::collect::Extend<T>>::extend") and bj in b.rpo_index and b.rpo_index[bj] < b.rpo_index.get(prod_block, 0)
+                                                  and it.target(args_at(ctx, b.key, bj)[1][0]) == tgt]
+                    if idx == 0 and appended_before_production:
+                        rep.bad("C18.R1", "%s::%s|front-insert-of-a-later-packet" % (which, name),
+                                "%s serializes a packet after other results were already appended to the returned vector and then inserts it at index 0: it is returned before packets that were serialized before it" % b.pretty, t["span"])
             # (iii) a single packet returned directly
             for bi in b.return_blocks:
                 S = it.exit_state(bi)
